@@ -69,8 +69,14 @@ HasCase(j, l) == \E i \in 1..Len(j) : j[i].label = l
 Touch(j, l) == IF HasCase(j, l) THEN j ELSE Append(j, [label |-> l, errors |-> 0, skipped |-> 0])
 Bump(j, l, field) == [i \in 1..Len(j) |-> IF j[i].label = l THEN [j[i] EXCEPT ![field] = @ + 1] ELSE j[i]]
 
-ScenarioFinished(l, ph, sh) ==
+(* fin = the event's is_final flag.  The engine sets it on the scenario in which the stateful phase replays the minimal failing
+   example (label "Stateful tests", real exchanges in its recorder) and on the empty ERROR scenario that accompanies an operation
+   that could not be tested.  It is a hint for the progress display only: the exchanges of a final scenario were sent and
+   delivered like any others, so every clause below is independent of fin *)
+CanBeFinal(l, sh) == l = "Stateful tests" \/ sh = "empty"
+ScenarioFinished(l, ph, sh, fin) ==
     /\ ~done /\ Len(hist) < MaxEvents /\ ph >= LastPhase
+    /\ fin => CanBeFinal(l, sh)
     /\ LET k == Len(hist) + 1
            cs == CasesOf(sh)
            new == (UNION {FailuresIn(cs[c]) : c \in 1..Len(cs)}) \ Seen
@@ -82,8 +88,9 @@ ScenarioFinished(l, ph, sh) ==
                  \cup (IF ph = 1 /\ cs # <<>> THEN {"case-without-metadata"} ELSE {})
                  \cup (IF \E c \in 1..Len(cs) : cs[c].sent /\ ~cs[c].resp THEN {"no-response"} ELSE {})
                  \cup (IF \E c \in 1..Len(cs) : ~cs[c].sent THEN {"case-without-interaction"} ELSE {})
-                 \cup (IF \E i \in 1..Len(hist) : hist[i].label = l THEN {"repeated-label"} ELSE {}) IN
-       /\ hist' = Append(hist, [kind |-> "SF", label |-> l, phase |-> ph, shape |-> sh])
+                 \cup (IF \E i \in 1..Len(hist) : hist[i].label = l THEN {"repeated-label"} ELSE {})
+                 \cup (IF fin /\ \E c \in 1..Len(cs) : cs[c].sent THEN {"final-replay-with-exchanges"} ELSE {}) IN
+       /\ hist' = Append(hist, [kind |-> "SF", label |-> l, phase |-> ph, shape |-> sh, final |-> fin])
        /\ unique' = unique \cup {[f |-> f, ev |-> k, case |-> firstCase(f)] : f \in new}
        /\ grouped' = grouped2
        /\ junit' = IF sh = "skip" THEN Bump(Touch(junit, l), l, "skipped") ELSE Touch(junit, l)
@@ -96,7 +103,7 @@ ScenarioFinished(l, ph, sh) ==
 
 NonFatalError(l, ph) ==
     /\ ~done /\ Len(hist) < MaxEvents /\ ph >= LastPhase
-    /\ hist' = Append(hist, [kind |-> "NF", label |-> l, phase |-> ph, shape |-> "-"])
+    /\ hist' = Append(hist, [kind |-> "NF", label |-> l, phase |-> ph, shape |-> "-", final |-> FALSE])
     /\ junit' = Bump(Touch(junit, l), l, "errors")
     /\ hazards' = Append(hazards, {})
     /\ snaps' = Append(snaps, [grouped |-> grouped, unique |-> unique])
@@ -105,7 +112,7 @@ NonFatalError(l, ph) ==
 EngineFinished == /\ ~done /\ done' = TRUE
                   /\ UNCHANGED <<hist, unique, grouped, junit, cassette, hazards, snaps>>
 
-Next == \/ \E l \in Labels, ph \in Phases, sh \in Shapes : ScenarioFinished(l, ph, sh)
+Next == \/ \E l \in Labels, ph \in Phases, sh \in Shapes, fin \in BOOLEAN : ScenarioFinished(l, ph, sh, fin)
         \/ \E l \in Labels, ph \in Phases : NonFatalError(l, ph)
         \/ EngineFinished
 Spec == Init /\ [][Next]_vars
@@ -122,7 +129,7 @@ TypeOK == /\ Len(hist) <= MaxEvents /\ Len(hazards) = Len(hist) /\ Len(snaps) = 
           /\ \A u \in unique : u.f \in Failures /\ u.ev \in 1..Len(hist)
 (* every event the engine can emit next is accepted - no reporter action is disabled by a missing key *)
 AlwaysEnabled == (~done /\ Len(hist) < MaxEvents) =>
-                    /\ \A l \in Labels, ph \in LastPhase..3, sh \in Shapes : ENABLED ScenarioFinished(l, ph, sh)
+                    /\ \A l \in Labels, ph \in LastPhase..3, sh \in Shapes, fin \in BOOLEAN : CanBeFinal(l, sh) \/ ~fin => ENABLED ScenarioFinished(l, ph, sh, fin)
                     /\ \A l \in Labels, ph \in LastPhase..3 : ENABLED NonFatalError(l, ph)
 FinishEnabled == ~done => ENABLED EngineFinished
 (* de-duplication: a failure is recorded exactly once, under the label and case of its first discovery *)
